@@ -293,9 +293,106 @@ func checkC05(c *Ctx) {
 			}
 		})
 		cons := "policy.ShouldAcceptOriginDomain"
+		// the loop may sit in a helper that answers "does any pattern of this list match s"
+		// (matchesAnyPattern(list, s)); the predicate is then the negation of its answer
+		var viaHelper *ssa.Call
+		if match == nil {
+			eng.EachInstr(fn, func(in ssa.Instruction) {
+				hc, ok := in.(*ssa.Call)
+				if !ok {
+					return
+				}
+				h := eng.StaticCallee(hc.Common())
+				if h == nil || h == fn || len(h.Blocks) == 0 || eng.FuncPkgPath(h) != eng.FuncPkgPath(fn) {
+					return
+				}
+				eng.EachInstr(h, func(hi ssa.Instruction) {
+					if call, ok := hi.(*ssa.Call); ok && hi.Parent() == h {
+						if g := eng.StaticCallee(call.Common()); g != nil && g.Name() == "MatchWithWildcards" {
+							match, viaHelper = call, hc
+						}
+					}
+				})
+			})
+		}
 		switch {
 		case match == nil:
 			r.Bad("C05/TABLE/predicates", cons, p.Pos(fn.Pos()), "no wildcard match against RejectOriginDomains")
+		case viaHelper != nil:
+			h := match.Parent()
+			var probs []string
+			// in the helper: pattern = element of a slice parameter, subject = a string parameter
+			var listPrm, subjPrm *ssa.Parameter
+			if u, ok := match.Call.Args[0].(*ssa.UnOp); ok {
+				if ia, ok := u.X.(*ssa.IndexAddr); ok {
+					listPrm, _ = ia.X.(*ssa.Parameter)
+				}
+			}
+			subjPrm, _ = match.Call.Args[1].(*ssa.Parameter)
+			li, si := -1, -1
+			if listPrm != nil && subjPrm != nil {
+				li, si = eng.ParamIndex(listPrm), eng.ParamIndex(subjPrm)
+			}
+			if listPrm == nil || subjPrm == nil || listPrm.Parent() != h || subjPrm.Parent() != h || li < 0 || si < 0 || li >= len(viaHelper.Call.Args) || si >= len(viaHelper.Call.Args) {
+				probs = append(probs, "in "+shortFn(h)+" MatchWithWildcards is not called with (element of the list parameter, the subject parameter): pattern and subject are swapped or something else is matched")
+			} else {
+				if f := eng.LoadedField(viaHelper.Call.Args[li]); f == nil || f.Name() != "RejectOriginDomains" {
+					probs = append(probs, "the list handed to "+shortFn(h)+" is not RejectOriginDomains")
+				}
+				if low == nil || viaHelper.Call.Args[si] != ssa.Value(low) {
+					probs = append(probs, "the subject handed to "+shortFn(h)+" is not the lower-cased domain")
+				}
+			}
+			// the helper answers true exactly under a match
+			var tEdge *ssa.BasicBlock
+			for _, b := range h.Blocks {
+				for k := 0; k < len(b.Succs) && len(b.Succs) == 2; k++ {
+					if v, pol, ok := eng.CondTruth(b, k); ok && v == ssa.Value(match) && pol {
+						tEdge = b.Succs[k]
+					}
+				}
+			}
+			if tEdge == nil {
+				probs = append(probs, "the match result is not branched on in "+shortFn(h))
+			} else {
+				eng.EachInstr(h, func(in ssa.Instruction) {
+					ret, ok := in.(*ssa.Return)
+					if !ok || len(eng.ReturnResults(ret)) != 1 {
+						return
+					}
+					v, isC := eng.ConstBool(eng.ReturnResults(ret)[0])
+					under := tEdge.Dominates(ret.Block())
+					if !isC {
+						probs = append(probs, "non-constant return at "+p.InstrPos(ret))
+					} else if under && !v {
+						probs = append(probs, shortFn(h)+" answers false at "+p.InstrPos(ret)+" although a pattern matched")
+					} else if !under && v {
+						probs = append(probs, shortFn(h)+" answers true at "+p.InstrPos(ret)+" although no pattern matched")
+					}
+				})
+			}
+			// the predicate returns the negation of the answer
+			eng.EachInstr(fn, func(in ssa.Instruction) {
+				ret, ok := in.(*ssa.Return)
+				if !ok || len(eng.ReturnResults(ret)) != 1 {
+					return
+				}
+				rv := eng.ReturnResults(ret)[0]
+				if u, ok := rv.(*ssa.UnOp); ok && u.Op == token.NOT && u.X == ssa.Value(viaHelper) {
+					return
+				}
+				if v, isC := eng.ConstBool(rv); isC {
+					if kv, known := eng.KnownBool(viaHelper, ret.Block()); known && kv != v {
+						return
+					}
+				}
+				probs = append(probs, "return at "+p.InstrPos(ret)+" is not the negation of "+shortFn(h)+"'s answer")
+			})
+			if len(probs) > 0 {
+				r.Bad("C05/TABLE/predicates", cons, p.InstrPos(match), "%s", strings.Join(probs, "; "))
+			} else {
+				r.Ok("C05/TABLE/predicates", cons, p.InstrPos(match), "refuses exactly when %s(RejectOriginDomains, lower(domain)) finds a matching element", shortFn(h))
+			}
 		default:
 			var probs []string
 			// pattern = element of RejectOriginDomains, s = lowered domain
